@@ -5,6 +5,7 @@ import (
 	"fmt"
 	"reflect"
 	"sort"
+	"strconv"
 	"strings"
 
 	"github.com/gnolang/gno/gno.land/pkg/gnoland"
@@ -176,15 +177,27 @@ type ObjSnap struct {
 	Realm   string            // the #realm record, raw
 }
 
-// SnapObjects decodes every oid: record stamped with pkgPath's PkgID.
+// SnapObjects decodes every oid: record stamped with pkgPath's PkgID. Object
+// ids of a realm are <pkgid>:1 .. <pkgid>:Time (Time is the realm's allocation
+// counter in its #realm record), so the records are fetched by key.
 func SnapObjects(v *audit.View, pkgPath string) (*ObjSnap, error) {
 	pid := gno.PkgIDFromPkgPath(pkgPath)
-	kv := v.BasePrefix("oid:" + hex.EncodeToString(pid.Hashlet[:]) + ":")
+	prefix := "oid:" + hex.EncodeToString(pid.Hashlet[:]) + ":"
+	st := v.Base()
 	s := &ObjSnap{Payload: map[string]string{}, Raw: map[string]string{}}
-	for _, k := range kv.Keys {
-		val := kv.M[k]
-		if strings.HasSuffix(k, "#realm") {
-			s.Realm = string(val)
+	rr := st.Get(nil, []byte(prefix+"1#realm"))
+	if rr == nil {
+		return nil, fmt.Errorf("%s: no realm record", pkgPath)
+	}
+	s.Realm = string(rr)
+	var rlm *gno.Realm
+	if err := amino.Unmarshal(rr, &rlm); err != nil || rlm == nil {
+		return nil, fmt.Errorf("%s: realm record does not decode: %v", pkgPath, err)
+	}
+	for n := uint64(1); n <= rlm.Time+2; n++ {
+		k := prefix + strconv.FormatUint(n, 10)
+		val := st.Get(nil, []byte(k))
+		if val == nil {
 			continue
 		}
 		s.Raw[k] = string(val)
